@@ -4,6 +4,106 @@ import TonicModel.Spec.Timeout
 namespace DriverC09
 open Proto Timeout
 
+/-- The caller's deadline as a case token: `none`, a duration in ns, or raw grpc-timeout header
+values `x<hex>[,x<hex>]*` (written into the request as they are). -/
+inductive Caller
+  | absent
+  | dur (d : Nat)
+  | raw (vals : List Bytes)
+
+def caller? (s : String) : Option Caller :=
+  if s = "none" then some .absent
+  else if s.startsWith "x" then ((s.splitOn ",").mapM unhex).map .raw
+  else s.toNat?.map .dur
+
+/-- Model: what the receiving `GrpcTimeout` reads (`none` = `set_timeout` panicked).  `exact`:
+the header was written by hand and denotes `d` exactly (no tonic encoder involved). -/
+def Caller.modelHeader (exact : Bool) : Caller → Option (Option Nat)
+  | .absent => some none
+  | .dur d =>
+    if exact then some (some d)
+    else match setTimeouts [d] with
+      | some vals => some (headerTimeout vals)
+      | none => none
+  | .raw vals => some (headerTimeout vals)
+
+/-- Spec: the admissible readings of the caller's deadline.  A duration set with `set_timeout`
+counts as what it amounts to on the wire (rounded down to the most precise unit that holds it);
+a raw value counts iff it is spec-conformant, else it is ignored; of several values any one may
+be the one in force (the property does not say which). -/
+def Caller.specDeadlines (exact : Bool) : Caller → List (Option Nat)
+  | .absent => [none]
+  | .dur d => if exact then [some d] else [Spec.Timeout.onWire d]
+  | .raw [] => [none]
+  | .raw vals => vals.map Spec.Timeout.denote
+
+/-- A `set_timeout` beyond the quantified range (the encoder may panic there). -/
+def Caller.outOfRange : Caller → Bool
+  | .dur d => decide (Spec.Timeout.maxDuration < d)
+  | _ => false
+
+def lat? (s : String) : Option (Option Nat) :=
+  if s = "never" then some none else s.toNat?.map some
+
+def statusToks (code : Nat) (text : Bytes) : String := s!"timeout {code} {hex text}"
+
+/-- Model result → observed tokens (with or without the completion time). -/
+def renderDone (timed : Bool) : Done → String
+  | .inner t => if timed then s!"inner {t}" else "inner"
+  | .timeout t =>
+    let st := statusToks expiredStatus.1 expiredStatus.2
+    if timed then s!"{st} {t}" else st
+  | .pending => "pending"
+
+def renderOutcome : Outcome → String
+  | .inner => "inner"
+  | .timeout => statusToks expiredStatus.1 expiredStatus.2
+  | .pending => "pending"
+
+/-- Spec expectation → observed tokens. -/
+def renderExpect (timed : Bool) : Spec.Timeout.Expect → String
+  | .finishes t => if timed then s!"inner {t}" else "inner"
+  | .cancelled t =>
+    let st := statusToks Spec.Timeout.cancelledCode Spec.Timeout.expiredText
+    if timed then s!"{st} {t}" else st
+  | .pending => "pending"
+
+/-- Builder ops token: `-` or a comma list of `t<ns>` (`.timeout`), `k<ns>` (`connect_timeout`),
+`l` (`.layer`), any other single letter (another builder method). -/
+def op? (s : String) : Option BOp :=
+  match s.toList with
+  | 't' :: r => (String.ofList r).toNat?.map .timeout
+  | 'k' :: r => (String.ofList r).toNat?.map .connectTimeout
+  | ['l'] => some .layer
+  | [_] => some .other
+  | _ => none
+
+def ops? (s : String) : Option (List BOp) :=
+  if s = "-" then some [] else (s.splitOn ",").mapM op?
+
+/-- The same token read for the spec: only `.timeout(t)` calls say anything about the timeout. -/
+def specOps (s : String) : List (Option Nat) :=
+  if s = "-" then [] else (s.splitOn ",").map fun o =>
+    match o.toList with
+    | 't' :: r => (String.ofList r).toNat?
+    | _ => none
+
+def nats? (s : String) : Option (List Nat) :=
+  if s = "-" then some [] else (s.splitOn ",").mapM nat?
+
+def obsStr (obs : List String) : String := String.intercalate " " obs
+
+/-- Shared shape: model prediction (or `panic`), and the verdict "observed = what the spec expects
+under one admissible reading of the caller's deadline". -/
+def decide1 (clause : String) (c : Caller) (exact timed : Bool) (obs : List String)
+    (model : Option Nat → String) (spec : Option Nat → Spec.Timeout.Expect) : String × String :=
+  let m := match c.modelHeader exact with
+    | some h => model h
+    | none => "panic"
+  let ok := c.outOfRange ||
+    (c.specDeadlines exact).any (fun h => renderExpect timed (spec h) == obsStr obs)
+  (m, verdict [(clause, ok)])
+
 def handle (case obs : List String) : String × String :=
   match case with
   | ["enc", ds] =>
@@ -24,6 +124,23 @@ def handle (case obs : List String) : String × String :=
           | none => if d ≤ Spec.Timeout.maxDuration then "fail:no-value" else "ok"
         | _ => "fail:no-value"
       (model, v)
+  | "encs" :: dtoks =>
+    -- `set_timeout` called once per duration, in order; observed = every grpc-timeout value
+    match dtoks.mapM nat?, dtoks.getLast? with
+    | some ds, some _ =>
+      let model := match setTimeouts ds with
+        | some vals => String.intercalate " " (vals.map hex)
+        | none => "panic"
+      let last := ds.getLast?.getD 0
+      let ok := if ds.any (fun d => decide (Spec.Timeout.maxDuration < d)) then true else
+        match obs with
+        | [o] => match unhex o with
+          | some bytes => (Spec.Timeout.denote bytes).isSome &&
+              Spec.Timeout.denote bytes == Spec.Timeout.onWire last
+          | none => false
+        | _ => false
+      (model, verdict [("last-set-timeout-wins-single-value", ok)])
+    | _, _ => bad
   | ["parse", hv] =>
     match unhex hv with
     | none => bad
@@ -35,31 +152,61 @@ def handle (case obs : List String) : String × String :=
       let expected := render (Spec.Timeout.denote bytes)
       (model, verdict [("parse-is-denotation", String.intercalate " " obs == expected)])
   | ["e2e", c, s, e, l] =>
-    match optNat? c, optNat? s, optNat? e, nat? l with
+    match caller? c, optNat? s, optNat? e, nat? l with
     | some c, some s, some e, some l =>
       -- client stack: min(caller header, Endpoint::timeout); server stack: min(caller header,
       -- Server::timeout); the call is cut when either fires before the handler answers
-      let cut := fun (x : Option Nat) => match x with | some t => decide (t < l) | none => false
-      let clientCut := run l (effective c e) == .timeout
-      let serverCut := run l (effective c s) == .timeout
-      let tmo := "timeout 1 " ++ hex (Ascii.ofString "Timeout expired")
-      let model := if clientCut || serverCut then tmo else "inner"
-      let expected := if cut c || cut s || cut e then tmo else "inner"
-      (model, verdict [("cutoff-at-shortest-deadline-end-to-end", String.intercalate " " obs == expected)])
+      decide1 "cutoff-at-shortest-deadline-end-to-end" c false false obs
+        (fun h => renderDone false (endToEnd h s e (some l)))
+        (fun h => Spec.Timeout.expected [h, s, e] (some l))
     | _, _, _, _ => bad
   | ["run", c, s, l] =>
-    match optNat? c, optNat? s, nat? l with
+    match caller? c, optNat? s, nat? l with
     | some c, some s, some l =>
-      let model := match run l (effective c s) with
-        | .inner => "inner"
-        | .timeout => "timeout 1 " ++ hex (Ascii.ofString "Timeout expired")
-        | .pending => "pending"
-      -- spec, stated without the model: shorter of the two present deadlines decides
-      let cut : Bool := (match c with | some x => x < l | none => false)
-                     || (match s with | some x => x < l | none => false)
-      let expected := if cut then "timeout 1 " ++ hex (Ascii.ofString "Timeout expired") else "inner"
-      (model, verdict [("cutoff-at-shorter-deadline", String.intercalate " " obs == expected)])
+      let clause := match c with
+        | .raw _ => "malformed-header-ignored-conformant-enforced"
+        | _ => "cutoff-at-shorter-deadline"
+      decide1 clause c false false obs
+        (fun h => renderOutcome (run l (effective h s)))
+        (fun h => Spec.Timeout.expected [h, s] (some l))
     | _, _, _ => bad
+  | ["cli", peer, c, e, l] =>
+    match caller? c, optNat? e, lat? l with
+    | some c, some e, some l =>
+      let reply? : Option Reply :=
+        if peer = "silent" || peer = "routes" then some (plainPeer l)
+        else if peer = "stall" then some (stallPeer l)
+        else none
+      match reply? with
+      | none => bad
+      | some r =>
+        decide1 "client-cuts-off-without-enforcing-peer" c false true obs
+          (fun h => renderDone true (clientCall h e r))
+          (fun h => Spec.Timeout.expected [h, e] l)
+    | _, _, _ => bad
+  | ["srv", c, s, l] =>
+    match caller? c, optNat? s, lat? l with
+    | some c, some s, some l =>
+      decide1 "server-cuts-off-without-enforcing-client" c true true obs
+        (fun h => renderDone true (serverStack h s l))
+        (fun h => Spec.Timeout.expected [h, s] l)
+    | _, _, _ => bad
+  | ["seq", cs, sops, eops, l] =>
+    -- set_timeout once per duration in `cs`; Server / Endpoint built by the op sequences
+    match nats? cs, ops? sops, ops? eops, nat? l with
+    | some ds, some so, some eo, some l =>
+      let model := match setTimeouts ds with
+        | some vals =>
+          renderDone true (endToEnd (headerTimeout vals) (configured so) (configured eo) (some l))
+        | none => "panic"
+      let callerSpec := match ds.getLast? with
+        | some d => Spec.Timeout.onWire d
+        | none => none
+      let expected := renderExpect true (Spec.Timeout.expected
+        [callerSpec, Spec.Timeout.lastSet (specOps sops), Spec.Timeout.lastSet (specOps eops)] (some l))
+      let ok := ds.any (fun d => decide (Spec.Timeout.maxDuration < d)) || obsStr obs == expected
+      (model, verdict [("latest-timeout-setting-in-force", ok)])
+    | _, _, _, _ => bad
   | _ => bad
 
 end DriverC09
